@@ -220,7 +220,7 @@ func Scenarios(tier string) []run.Scenario {
 	}
 	n := 3
 	if tier == "thorough" {
-		n = 4
+		n = 5
 	}
 	for _, bk := range []string{"nil", "getbody"} {
 		add(Params{BodyKind: bk, MaxAttempts: n, Outcomes: outcomes})
